@@ -233,6 +233,11 @@ class InjectedFault(Exception):
     pass
 
 
+class InjectedInterrupt(BaseException):
+    """Like KeyboardInterrupt: not an `Exception`.  A user pressing Ctrl-C during a long compile is a
+    failed compile too, and save/restore code written as `except Exception:` misses it."""
+
+
 def canon(text: str) -> str:
     """Renumber generated names by order of first appearance."""
     patterns = [
@@ -265,7 +270,7 @@ def outcome_of(ctx, d, op):
         pkg = d.compile() if op == "compile_entry" else d.compile_function()
         txt = canon(str(pkg.to_model()))
         return ("ok", hashlib.sha256(txt.encode()).hexdigest())
-    except InjectedFault:
+    except (InjectedFault, InjectedInterrupt):
         return ("injected", "")
     except BaseException as e:
         if C.raised_in_harness(e):
@@ -340,7 +345,7 @@ class FailPoints:
         if self.armed_at is not None and self.count == self.armed_at:
             self.fired = True
             self.site = f"{code.co_filename.rsplit('/', 1)[-1]}:{code.co_name}:{line}"
-            raise InjectedFault()
+            raise (InjectedInterrupt() if self.count % 3 == 0 else InjectedFault())
         return None
 
     def start(self, armed_at):
